@@ -65,7 +65,7 @@ BUDGET = {'quick': dict(examples=4800, max_s=240),
           'thorough': dict(examples=40000, max_s=1100)}
 
 FOPTS = dict(max_len=6, max_dims=5, max_vars=5, attrs=True, masked=True,
-             char=True)
+             char=True, fills=[-999, -9999, -1, 99, 0, 0])
 
 
 # ------------------------------------------------------------------ strategy
@@ -96,7 +96,8 @@ def cases(draw, tier='quick'):
         # many small pieces (10-12 of length 1) of a compact file
         small = draw(S.filespecs(max_len=3, max_dims=3, max_vars=3,
                                  attrs=True, masked=True, char=False,
-                                 unlimited=False, min_rank=1))
+                                 unlimited=False, min_rank=1,
+                                 fills=[-999, -9999, 0]))
         sd = [x[0] for x in small['dims']
               if any(x[0] in v['dims'] for v in small['vars'])]
         d = draw(st.sampled_from(sd))
